@@ -8,6 +8,7 @@ import logging
 import platform
 import re
 import sys
+import types
 import uuid
 from collections import defaultdict
 from collections.abc import (
@@ -852,10 +853,12 @@ def _call_args_ast(
                     "keyword arguments must appear in key/value pairs", form=form
                 ) from e
             else:
-                kwargs = lmap.map(kw_map)
+                # Keyword argument values are evaluated in the order they were written,
+                # so their order must survive (persistent maps are ordered by hash)
+                kwargs = types.MappingProxyType(kw_map)
         else:
             args = vec.vector(_analyze_form(form, ctx) for form in form)
-            kwargs = lmap.EMPTY
+            kwargs = types.MappingProxyType({})
 
         return args, kwargs
 
